@@ -633,9 +633,8 @@ func resolveTracksSizes(context *layoutContext, sizingFunctions [][2]pr.DimOrS, 
 
 	for _, span := range spans {
 		tracksChildren := make([][]Box, len(sizingFunctions))
-		i := -1
-		for child, rect := range childrenPositions {
-			i++
+		for _, child := range orderedChildren {
+			rect := childrenPositions[child]
 			x, y, width, height := rect.unpack()
 			coord, size := x, width
 			if direction == 'y' {
@@ -645,7 +644,8 @@ func resolveTracksSizes(context *layoutContext, sizingFunctions [][2]pr.DimOrS, 
 				continue
 			}
 			hasFr := false
-			for _, functions := range sizingFunctions[utils.MinInt(i, len(sizingFunctions)):utils.MinInt(len(sizingFunctions), i+span+1)] {
+			i := coord - implicitStart // the tracks spanned by the item
+			for _, functions := range sizingFunctions[utils.MinInt(i, len(sizingFunctions)):utils.MinInt(len(sizingFunctions), i+span)] {
 				if isFr(functions[1]) {
 					hasFr = true
 					break
@@ -669,9 +669,8 @@ func resolveTracksSizes(context *layoutContext, sizingFunctions [][2]pr.DimOrS, 
 				tracksSizes[j][1] = pr.Max(sizes[0].V(), sizes[1].V())
 			}
 		}
-		i = -1
-		for child, rect := range childrenPositions {
-			i++
+		for _, child := range orderedChildren {
+			rect := childrenPositions[child]
 			x, y, width, height := rect.unpack()
 			coord, size := x, width
 			if direction == 'y' {
@@ -682,7 +681,8 @@ func resolveTracksSizes(context *layoutContext, sizingFunctions [][2]pr.DimOrS, 
 			}
 
 			hasFr := false
-			for _, functions := range sizingFunctions[utils.MinInt(i, len(sizingFunctions)):utils.MinInt(len(sizingFunctions), i+span+1)] {
+			i := coord - implicitStart // the tracks spanned by the item
+			for _, functions := range sizingFunctions[utils.MinInt(i, len(sizingFunctions)):utils.MinInt(len(sizingFunctions), i+span)] {
 				if isFr(functions[1]) {
 					hasFr = true
 					break
